@@ -462,6 +462,27 @@ def same_id_cases():
     return True
 
 
+def find_edge_cases():
+    """ordered groups that leave the edge between two adjacent segments implicit: the one fitting edge is supplied with its orientation (also an
+    edge of a segment with itself, which is listed twice among its edges); none -> NotFoundError; two different ones -> NotUniqueError"""
+    import gfapy
+    base = ["S\tA\t8\t*", "S\tB\t8\t*", "S\tC\t8\t*", "E\te1\tA+\tB+\t6\t8$\t0\t2\t*", "E\tloop\tA+\tA+\t6\t8$\t0\t2\t*",
+            "E\tp1\tB+\tC+\t6\t8$\t0\t2\t*", "E\tp2\tB+\tC+\t5\t8$\t0\t3\t*", "E\thp\tC+\tC-\t6\t8$\t6\t8$\t*"]
+    for items, want in (("A+ B+", ["A+", "e1+", "B+"]), ("B- A-", ["B-", "e1-", "A-"]), ("A+ A+", ["A+", "loop+", "A+"]), ("A- A-", ["A-", "loop-", "A-"]),
+                        ("A+ A+ B+", ["A+", "loop+", "A+", "e1+", "B+"]), ("B+ C+", gfapy.NotUniqueError), ("A+ C+", gfapy.NotFoundError), ("A+ B-", gfapy.NotFoundError),
+                        ("C+ C-", ["C+", "hp+", "C-"])):
+        g = gfapy.Gfa(base + ["O\to\t" + items], version="gfa2")
+        try:
+            got = [str(x) for x in g.line("o").captured_path]
+        except gfapy.Error as e:
+            got = type(e)
+        except Exception as e:
+            return "O o %s: captured_path raised %s" % (items, type(e).__name__)
+        if got != want:
+            return "O o %s: captured path %s, expected %s" % (items, got if isinstance(got, list) else got.__name__, want if isinstance(want, list) else want.__name__)
+    return True
+
+
 def replaced_line_cases():
     """an instance that was replaced by another line (a placeholder by the real line, a group line by a later line of the same group) is
     not connected any more, and using it (rename, disconnect, tag) leaves the Gfa as it is"""
